@@ -14,6 +14,7 @@ import json
 import os
 import pickle
 import random
+import re
 import shutil
 import signal
 import sys
@@ -510,6 +511,34 @@ def trace_cfg(procs, probes, datasets):
             "INVARIANT Judge\nCHECK_DEADLOCK FALSE\n" % (q(procs), q(probes), q(datasets)))
 
 
+_RE_VERDICT = re.compile(r'<<\s*"V",\s*(\d+),\s*\{([^}]*)\}\s*>>', re.S)
+
+
+def _validate_part(scratch, part, events, trace_module, cfg, workers, timeout, tag):
+    """As vlib._validate_part, but verdict tuples that TLC's pretty printer wrapped over several lines are read too."""
+    path = scratch.path("%s-trace-%d.json" % (tag, part))
+    with open(path, "w") as f:
+        json.dump(events, f, separators=(",", ":"))
+    wd = scratch.path("%s-part%d" % (tag, part))
+    os.makedirs(wd, exist_ok=True)
+    cfgp = os.path.join(wd, "trace.cfg")
+    with open(cfgp, "w") as f:
+        f.write(cfg)
+    shutil.copy(os.path.join(vlib.SPEC, "trace", trace_module + ".tla"), os.path.join(wd, trace_module + ".tla"))
+    r = vlib.run_tlc(wd, trace_module, cfgp, workers=workers, timeout=timeout, env={"TRACE_FILE": path}, heap="3g")
+    if r.error or r.violated or r.rc != 0:
+        raise MachineryError("trace validation (%s): rc=%s violated=%s %s\n%s" % (
+            trace_module, r.rc, r.violated, r.error, r.stdout[-3000:]))
+    verdicts = {}
+    for m in _RE_VERDICT.finditer(r.stdout):
+        verdicts[int(m.group(1))] = sorted(re.findall(r'"([^"]*)"', m.group(2)))
+    n = len(events)
+    if len(verdicts) != n or r.distinct != n + 1:
+        raise MachineryError("trace validation (%s): %d events, %d verdicts, %d states" % (
+            trace_module, n, len(verdicts), r.distinct))
+    return verdicts, r
+
+
 def validate_traces(scratch, events, trace_module="Trace_Cache", cfg=None, workers=NCPU, timeout=3600, tag="tr",
                     per_part=4000):
     """Same contract as vlib.validate_events ({event id: [failing clauses]}, stats), but events of one trace
@@ -545,7 +574,7 @@ def validate_traces(scratch, events, trace_module="Trace_Cache", cfg=None, worke
                 dss.update(e["s"])
             elif str(e.get("p", "")).startswith("q"):
                 probes.add(e["p"])
-        return vlib._validate_part(scratch, k, part, trace_module, cfg or trace_cfg(procs, probes, dss), w, timeout, tag)
+        return _validate_part(scratch, k, part, trace_module, cfg or trace_cfg(procs, probes, dss), w, timeout, tag)
 
     from concurrent.futures import ThreadPoolExecutor
     with ThreadPoolExecutor(nparts) as ex:
@@ -559,3 +588,133 @@ def validate_traces(scratch, events, trace_module="Trace_Cache", cfg=None, worke
     if len(verdicts) != len(events):
         raise MachineryError("trace validation: %d events, %d verdicts" % (len(events), len(verdicts)))
     return verdicts, agg
+
+
+# --------------------------------------------------------------------------------------------------------
+# behaviours from the labelled state graph that TLC dumped (MC_Cache: EmitInit / EmitEdge)
+# --------------------------------------------------------------------------------------------------------
+class Graph:
+    def __init__(self, json_lines):
+        self.inits = {}
+        self.adj = {}
+        self.nedges = 0
+        for j in json_lines:
+            if j.get("k") == "init":
+                self.inits[tuple(j["id"])] = j
+            elif j.get("k") == "edge":
+                self.adj.setdefault(tuple(j["f"]), []).append((tuple(j["a"]), tuple(j["t"])))
+                self.nedges += 1
+        if not self.inits or not self.nedges:
+            raise MachineryError("TLC emitted no state graph (%d inits, %d edges)" % (len(self.inits), self.nedges))
+        for k in self.adj:
+            self.adj[k].sort()
+        self.parent = {}                       # BFS tree: node -> (parent node, action, root)
+        dq = deque()
+        for i in sorted(self.inits):
+            self.parent[i] = (None, None, i)
+            dq.append(i)
+        while dq:
+            u = dq.popleft()
+            for a, v in self.adj.get(u, ()):
+                if v not in self.parent:
+                    self.parent[v] = (u, a, self.parent[u][2])
+                    dq.append(v)
+        self.order = list(self.parent)
+
+    def path_to(self, u):
+        acts = []
+        root = self.parent[u][2]
+        while self.parent[u][0] is not None:
+            p, a, _ = self.parent[u]
+            acts.append(a)
+            u = p
+        acts.reverse()
+        return root, acts
+
+    def behaviour(self, root, acts, tid, gz=False, src=""):
+        j = self.inits[root]
+        return {"tid": tid, "cfg": j["cfg"], "slot": j["slot"], "net": j["net"], "steps": [list(a) for a in acts],
+                "gz": gz, "src": src}
+
+    def cover(self, rng=None, limit=None):
+        """Walks from initial states such that every edge lies on at least one of them (transition cover).
+        With a limit, a seeded random subset of the uncovered edges is served first-come."""
+        covered = set()
+        walks = []
+        nodes = list(self.order)
+        if rng is not None and limit is not None:
+            rng.shuffle(nodes)
+        for u in nodes:
+            for k, (a, v) in enumerate(self.adj.get(u, ())):
+                if (u, k) in covered:
+                    continue
+                root, acts = self.path_to(u)
+                # mark the tree path as covered as well (it is executed)
+                x = u
+                while self.parent[x][0] is not None:
+                    px, pa, _ = self.parent[x]
+                    for kk, (aa, vv) in enumerate(self.adj[px]):
+                        if aa == pa and vv == x:
+                            covered.add((px, kk))
+                            break
+                    x = px
+                cur, kk = u, k
+                while True:
+                    covered.add((cur, kk))
+                    aa, vv = self.adj[cur][kk]
+                    acts.append(aa)
+                    cur = vv
+                    nxt = [i for i in range(len(self.adj.get(cur, ()))) if (cur, i) not in covered]
+                    if not nxt:
+                        break
+                    kk = nxt[0]
+                walks.append((root, acts))
+                if limit is not None and len(walks) >= limit:
+                    return walks, len(covered)
+        return walks, len(covered)
+
+    def random_walks(self, rng, count, maxlen=200):
+        roots = sorted(self.inits)
+        out = []
+        for _ in range(count):
+            r = rng.choice(roots)
+            cur, acts = r, []
+            while len(acts) < maxlen and self.adj.get(cur):
+                a, v = rng.choice(self.adj[cur])
+                acts.append(a)
+                cur = v
+            out.append((r, acts))
+        return out
+
+
+# --------------------------------------------------------------------------------------------------------
+# parallel replay
+# --------------------------------------------------------------------------------------------------------
+_ROOT = None
+
+
+def _replay_one(beh):
+    try:
+        return replay_behaviour(beh, _ROOT)
+    except MachineryError as ex:
+        return {"machinery": str(ex)}
+    except Exception as ex:  # noqa
+        import traceback
+        return {"machinery": "%s: %s\n%s" % (type(ex).__name__, ex, traceback.format_exc())}
+
+
+def replay_all(behs, root, procs=NCPU, chunksize=8):
+    """Replay every behaviour (each in its own data home under root); returns the list of event lists."""
+    global _ROOT
+    _ROOT = root
+    behs = list(behs)
+    if procs <= 1 or len(behs) < 8:
+        out = [_replay_one(b) for b in behs]
+    else:
+        import multiprocessing as mp
+        with mp.get_context("fork").Pool(procs) as pool:
+            out = pool.map(_replay_one, behs, chunksize=chunksize)
+    for o in out:
+        if isinstance(o, dict):
+            raise MachineryError("replay failed: " + o["machinery"])
+    return out
